@@ -61,7 +61,9 @@ def seeds():
     metas = [json.load(open(d + '/meta.json')) for d in sorted(glob.glob('/verif/seeded/C*')) if os.path.exists(d + '/meta.json')]
     total = len(metas)
     missed_first = sum(1 for m in metas if "first missed" in (m.get("note") or ""))
-    refined = sum(1 for m in metas if (m.get("note") or "") and "first missed" not in (m.get("note") or "") and "as first written" not in (m.get("note") or ""))
+    refined = sum(1 for m in metas if m.get("caught") and (m.get("note") or "") and "first missed" not in (m.get("note") or "")
+                  and "as first written" not in (m.get("note") or ""))
+    not_caught = sum(1 for m in metas if not m.get("caught"))
     caught_now = sum(1 for m in metas if m.get("caught"))
     head = ("%d seeded changes (%d properties, %d of them a second, independent change for the same property): %d are reported by the "
             "quick check of their property today and one is recorded as not caught (C06b, see §17). %d were reported by the rules as "
@@ -69,7 +71,7 @@ def seeds():
             "had not been implemented; the rule was added (last column), run on the unchanged tree (silent, or a genuine finding "
             "that was then repaired — §14) and the seed re-run." %
             (total, len(set(m["property"] for m in metas)), total - len(set(m["property"] for m in metas)), caught_now,
-             total - missed_first - refined, refined, missed_first))
+             total - missed_first - refined - not_caught, refined, missed_first))
     return head + "\n\n" + "\n".join(out)
 
 
